@@ -202,7 +202,9 @@ def r_hdr_io(ctx):
             ok_p = len(parses) == 1 and effs and any(t == unmut(effs[0].d["args"][1]) for t in subterms(unmut(parses[0].d["args"][0]))) if effs else False
             obs.append(Ob("R-HDR-IO", fn, "parses exactly the bytes read with Header's DekuRead", bool(ok_p), "parse calls: %d" % len(parses), rel(f["loc"])))
             v = unmut(p.value)
-            ok_v = bool(parses) and is_call_to(v, lambda s: s == "core::result::Result::Ok") and v[2][0] == ("proj", unmut(parses[0].d["ret"]), 1)
+            if is_call_to(v, lambda s: s == "core::result::Result::Ok") and v[2]:
+                v = v[2][0]
+            ok_v = bool(parses) and v == ("proj", unmut(parses[0].d["ret"]), 1)
             obs.append(Ob("R-HDR-IO", fn, "returns the parsed header", ok_v, "returns %s" % tstr(v)[:100], rel(f["loc"])))
     for f in ws:
         fn = f["path"]
@@ -251,7 +253,8 @@ def r_round(ctx):
                 v = unmut(e.d["v"])
                 is_round = is_call_to(v, lambda s: s.endswith("::round") or s.endswith("::round_ties_even")) and len(v[2]) == 1
                 inner = v[2][0] if is_round else v
-                ok_mul = isinstance(inner, tuple) and inner[0] == "bin" and inner[1] == "*" and {inner[2], inner[3]} == {V("param:field"), ("lit", "float", repr(float(factor)))}
+                fparams = [V("param:" + n) for n, prm in zip(fa.param_names, wf["params"]) if (prm.get("ty") or "") == "f64"]
+                ok_mul = isinstance(inner, tuple) and inner[0] == "bin" and inner[1] == "*" and len(fparams) == 1 and {inner[2], inner[3]} == {fparams[0], ("lit", "float", repr(float(factor)))}
                 obs.append(Ob("R-ROUND", wf["path"], "degrees × 1e7 is rounded to nearest before the integer cast", is_round and ok_mul,
                               "cast operand = %s (`as i32` truncates toward zero: an unrounded 20.999… becomes 20)" % tstr(v)[:100], e.loc()))
                 wv = [c for c in p.events if c.kind == "call" and c.d["fn"] == "deku::DekuWrite::write"]
@@ -265,8 +268,10 @@ def r_round(ctx):
             continue
         v = unmut(p.value)
         ok = False
-        if is_call_to(v, lambda s: s == "core::result::Result::Ok") and v[2] and v[2][0][0] == "tup":
-            val = v[2][0][1][1]
+        if is_call_to(v, lambda s: s == "core::result::Result::Ok") and v[2]:
+            v = v[2][0]
+        if isinstance(v, tuple) and v and v[0] == "tup" and len(v[1]) == 2:
+            val = v[1][1]
             if val[0] == "bin" and val[1] == "/" and val[3] == ("lit", "float", repr(float(factor))):
                 src = val[2]
                 ok = src[0] in ("call", "cast")
